@@ -31,6 +31,36 @@ template<bool KEYED> struct ObjT
   bool operator!=(const ObjT& o) const { return *p != *o.p; }
   bool operator<(const ObjT& o) const { return KEYED ? fdiv16(*p) < fdiv16(*o.p) : *p < *o.p; }
 };
+// Rec: an element type with constructors of 0..7 arguments that record what they were given (in the
+// order of the parameters).  Its value as printed = arity + 8 * (a0 + 8 * (a1 + 8 * (...))), the
+// ctor_val of SeqSpec.v; the arguments are 0..7.  One pointer wide (PoolList item alignment); the
+// record lives in its own heap cell, so ASan sees lifetime errors.
+struct Rec
+{
+  int* p; // p[0] = arity, p[1..7] = the arguments
+  void mk(int n, int a, int b, int c, int d, int e, int f, int g)
+  {
+    p = (int*)malloc(sizeof(int) * 8);
+    p[0] = n; p[1] = a; p[2] = b; p[3] = c; p[4] = d; p[5] = e; p[6] = f; p[7] = g;
+    ++g_live;
+  }
+  Rec() { mk(0, 0, 0, 0, 0, 0, 0, 0); }
+  Rec(int a) { mk(1, a, 0, 0, 0, 0, 0, 0); }
+  Rec(int a, int b) { mk(2, a, b, 0, 0, 0, 0, 0); }
+  Rec(int a, int b, int c) { mk(3, a, b, c, 0, 0, 0, 0); }
+  Rec(int a, int b, int c, int d) { mk(4, a, b, c, d, 0, 0, 0); }
+  Rec(int a, int b, int c, int d, int e) { mk(5, a, b, c, d, e, 0, 0); }
+  Rec(int a, int b, int c, int d, int e, int f) { mk(6, a, b, c, d, e, f, 0); }
+  Rec(int a, int b, int c, int d, int e, int f, int g) { mk(7, a, b, c, d, e, f, g); }
+  Rec(const Rec& o) { mk(o.p[0], o.p[1], o.p[2], o.p[3], o.p[4], o.p[5], o.p[6], o.p[7]); }
+  ~Rec() { free(p); --g_live; }
+  Rec& operator=(const Rec& o) { for(int k = 0; k < 8; ++k) p[k] = o.p[k]; return *this; }
+  int value() const { int v = 0; for(int k = p[0]; k >= 1; --k) v = v * 8 + p[k]; return p[0] + 8 * v; }
+  bool operator==(const Rec& o) const { return value() == o.value(); }
+  bool operator!=(const Rec& o) const { return value() != o.value(); }
+  bool operator<(const Rec& o) const { return value() < o.value(); }
+};
+static inline int val(const Rec& r) { return r.value(); }
 static inline int val(int x) { return x; }
 static inline int val(long x) { return (int)x; }
 template<bool K> static inline int val(const ObjT<K>& o) { return *o.p; }
@@ -231,6 +261,32 @@ template<class T> struct ListCase : NodeCase<List<T> >
   static void start() { B::letter = "L"; B::fresh(); g_op = op; g_end = B::finish; }
 };
 
+// PoolList::append with n = 0..7 constructor arguments (eight distinct member templates).  Only Rec has
+// all the constructors; for the other element kinds `appn` is not an operation.
+template<class T> struct AppN
+{
+  enum { yes = 0 };
+  static T* go(PoolList<T>&, int, const int*) { return 0; }
+};
+template<> struct AppN<Rec>
+{
+  enum { yes = 1 };
+  static Rec* go(PoolList<Rec>& l, int n, const int* a)
+  {
+    switch(n) {
+    case 0: return &l.append();
+    case 1: return &l.append(a[0]);
+    case 2: return &l.append(a[0], a[1]);
+    case 3: return &l.append(a[0], a[1], a[2]);
+    case 4: return &l.append(a[0], a[1], a[2], a[3]);
+    case 5: return &l.append(a[0], a[1], a[2], a[3], a[4]);
+    case 6: return &l.append(a[0], a[1], a[2], a[3], a[4], a[5]);
+    case 7: return &l.append(a[0], a[1], a[2], a[3], a[4], a[5], a[6]);
+    }
+    return 0;
+  }
+};
+
 template<class T> struct PListCase : NodeCase<PoolList<T> >
 {
   typedef PoolList<T> C;
@@ -245,6 +301,14 @@ template<class T> struct PListCase : NodeCase<PoolList<T> >
     int var = okI ? i : -1;
     if(!okI) printf("skip");
     else if(!strcmp(o, "new")) { delete B::v[i]; B::v[i] = new C; printf("-"); }
+    else if(AppN<T>::yes && (!strcmp(o, "appn") || !strcmp(o, "app"))) {
+      // appn i a b c ... : append(a, b, c, ...); arguments 0..7, at most 7 of them (else not an operation: skip)
+      int n = t.n - 2, a[7] = {0, 0, 0, 0, 0, 0, 0};
+      bool ok = n <= 7 && (n == 1 || strcmp(o, "app"));
+      for(int k = 0; ok && k < n; ++k) { a[k] = atoi(t.v[k + 2]); if(a[k] < 0 || a[k] > 7) ok = false; }
+      if(!ok) printf("skip");
+      else { T& r = *AppN<T>::go(*l, n, a); print_ref(*l, r); B::rit = (const char*)&r - sizeof(typename C::Item); }
+    }
     else if(!strcmp(o, "app")) { T& r = l->append(atoi(t.v[2])); print_ref(*l, r); B::rit = (const char*)&r - sizeof(typename C::Item); }
     else if(!strcmp(o, "rem")) {
       long k = atol(t.v[2]);
@@ -381,6 +445,7 @@ static void begin(long, vh::Tok& t)
   g_live = 0;
   if(!strcmp(kind, "obj")) start_kind<ObjT<false> >(cont);
   else if(!strcmp(kind, "kv")) start_kind<ObjT<true> >(cont);
+  else if(!strcmp(kind, "rec")) PListCase<Rec>::start(); // the kind of the PoolList::append arities; PoolList only
   else start_kind<int>(cont);
 }
 
